@@ -1,5 +1,6 @@
 import TR.Model.Common
 import TR.Model.Bulkhead
+import TR.Model.Stack
 import TR.Model.Budget
 import TR.Model.TimeLimiter
 import TR.Model.Chaos
@@ -36,6 +37,7 @@ def machineOf (name : String) : Option Machine :=
   | "chaos" => some Chaos.machine
   | "timelimiter" => some TimeLimiter.machine
   | "budget" => some Budget.machine
+  | "stack" => some Stack.machine
   | _ => none
 
 structure Run (m : Machine) where
